@@ -119,6 +119,9 @@ namespace options
 
     void option::prepare()
     {
+        // forget the result of an earlier parse
+        value_ = lang::optional<std::string>();
+        dirty_ = false;
     }
 
     void option::check()
